@@ -78,6 +78,11 @@ fn calc_max_day_cost_per_sec(all_deltas: &Vec<TxDelta>) -> MaxDayCosts {
 
     let mut ignored_delta_descs = Vec::<String>::new();
 
+    // The closing (last) cost of each security on each day it had a TxDelta.
+    // This (not the day's maximum) is what carries forward to later days.
+    let mut closing_costs_by_day =
+        HashMap::<Date, HashMap<Security, GreaterEqualZeroDecimal>>::new();
+
     // Keep track of the maximum cost for each security on any date where there's a TxDelta.
     // For example, SECA on 2000-01-01 has ACB 12, ACB 150, and ACB 0, so after the loop below,
     // we'll have a dateCosts[2001-01-01][SECA] = 150
@@ -109,6 +114,12 @@ fn calc_max_day_cost_per_sec(all_deltas: &Vec<TxDelta>) -> MaxDayCosts {
         let day_max_costs: &mut MaxSingleDayCosts =
             max_costs_by_day.get_mut(&date_from_delta).unwrap();
         day_max_costs.observe_new_cost(sec, total_acb);
+        // Deltas of a security are in chronological order, so the last one we see
+        // for a day is its closing cost.
+        closing_costs_by_day
+            .entry(date_from_delta)
+            .or_insert_with(HashMap::new)
+            .insert(sec.clone(), total_acb);
 
         if !day_zero_sec_costs.contains_key(sec) {
             day_zero_sec_costs.insert(
@@ -132,15 +143,18 @@ fn calc_max_day_cost_per_sec(all_deltas: &Vec<TxDelta>) -> MaxDayCosts {
     for day in sorted_days {
         let max_costs = max_costs_by_day.get_mut(&day).unwrap();
         for sec in sorted_securities.iter().map(|s| *s) {
-            let last_acb = *max_costs
-                .sec_max_cost_for_day
-                .get(sec)
-                .or_else(|| last_acbs.get(sec))
-                .unwrap_or_else(|| &day_zero_sec_costs.get(sec).unwrap().1);
-
-            last_acbs.insert(sec.clone(), last_acb);
-            if !max_costs.sec_max_cost_for_day.contains_key(sec) {
-                max_costs.observe_new_cost(sec, last_acb);
+            match closing_costs_by_day.get(&day).and_then(|m| m.get(sec)) {
+                Some(closing_cost) => {
+                    // The security had deltas on this day (so its max is already
+                    // observed). Later days carry its closing cost forward.
+                    last_acbs.insert(sec.clone(), *closing_cost);
+                }
+                None => {
+                    let last_acb = *last_acbs
+                        .get(sec)
+                        .unwrap_or_else(|| &day_zero_sec_costs.get(sec).unwrap().1);
+                    max_costs.observe_new_cost(sec, last_acb);
+                }
             }
         }
     }
